@@ -512,6 +512,11 @@ let () =
                 let smooth = Float.abs (dx -. dx2) +. Float.abs (dy -. dy2) +. Float.abs (dz -. dz2) in
                 let vcd = List.map (fun (k, _) ->
                     cd (fun e -> f (fun i -> if var_index i = k then varval i +. e else varval i) x y z)) vp in
+                (* smoothness in each variable: the central difference at twice the step must agree (a min / max
+                   switching, or cos(x^2 / v) oscillating, inside the step is not a smooth point) *)
+                let vcd = List.map2 (fun (k, _) d1 ->
+                    let d2 = cd2 (fun e -> f (fun i -> if var_index i = k then varval i +. e else varval i) x y z) in
+                    if Float.abs (d1 -. d2) <= 1e-4 *. (1.0 +. Float.abs d1) then d1 else nan) vp vcd in
                 (* the central difference itself loses everything below eps64 * |largest intermediate| / h *)
                 let maxabs = List.fold_left (fun m v -> Float.max m (Float.abs v)) 0.0 all_slots in
                 let smooth = smooth +. 4.4e-16 *. maxabs /. hh in
